@@ -61,6 +61,8 @@ type RaftPeer struct {
 	Switch  *SwitchableConsensus
 	Gate    *StoreGate
 	Net     *NetSwitch
+	// ShutdownReturned: Close() saw Cluster.Shutdown return (it did not have to abandon it)
+	ShutdownReturned bool
 	RaftCfg *raft.Config
 	Host    host.Host
 	DHT     *dual.DHT
@@ -361,6 +363,7 @@ func (r *RaftPeer) Close() error {
 		}()
 		select {
 		case err = <-done:
+			r.ShutdownReturned = true
 		case <-time.After(60 * time.Second):
 			err = fmt.Errorf("Cluster.Shutdown of %s did not return within 60s", r.ID.Pretty())
 			if r.Cons != nil {
